@@ -116,782 +116,695 @@ float{
     uint32
 crc, charz msg_type , u128 crc , string stringy
 `" ++ [233]%N ++ runes_of_ascii "`, }")).
-Eval vm_compute in ("<<<M313>>>" ++ check (runes_of_ascii "options { BodyLength = char[ 7] ;	}
-// c
-// @lengthOf(
-packet asx// " ++ [128512]%N ++ runes_of_ascii " emoji
-{ int16
-    x_y_z , @calculatedFrom(
-    """" ) @lengthOf(
-    /// triple
-    chars) //
-repeat repeatCount
-charz
-/// triple
-// " ++ [27880; 37322]%N ++ runes_of_ascii "
-, @leftPad ( ) i64_@calculatedFrom(
-""\" ++ [233]%N ++ runes_of_ascii """	) `// not a comment` , tag Z9_
-`two words` ,
-@lengthOf( asx
-)@calculatedFrom(
-""`tick`""
-    )match uint8x as
-matchKey
-    {0123456789
-// packet A { u8 x, }
-// a // b
-: u8x ,1 : zchar , } ,u128 @lengthOf( u128 // packet A { u8 x, }
-)// " ++ [128512]%N ++ runes_of_ascii " emoji
-, } MetaData	msg_type  {
-string
-BodyLength  `two words` , options1// " ++ [128512]%N ++ runes_of_ascii " emoji
-i64_ ,
-    }// " ++ [128512]%N ++ runes_of_ascii " emoji
-packet roots { u `` , @calculatedFrom( ""a	b"")match len as	msg_type{
-    // c
-    """ ++ [28040; 24687]%N ++ runes_of_ascii """
-:
-charz}, crc @calculatedFrom(
-// packet A { u8 x, }
-// packet A { u8 x, }
-""it's"" ) `a\`
-,@leftPad
-( '0' )@tag( 007	) zchar[// trailing space 
-3
-    // trailing space 
-    ] falsey ,  @calculatedFrom(// `tick` ""quote"" 'q'
-""\n""
-    )@calculatedFrom(""CRC32""// c
-)
-    // trailing space 
-    match
-    //x
-    Packet as // @lengthOf(
-stringy	{ 1:
-Pad
-, ""it's"" :f32a ,
-} , @leftPad (
-' '
-)
-    match // " ++ [27880; 37322]%N ++ runes_of_ascii "
-int as	a1 { [ 0123456789 ,255]
-    :
-    options1
-//x
-//x
-}
-    ,BodyLength
-    //
-    @calculatedFrom( """ ++ [28040; 24687]%N ++ runes_of_ascii """ ),
-float32
-    zchar
-@calculatedFrom( ""// no comment""
-)
-,	@tag( 10 ) zchar[
-    // packet A { u8 x, }
-    1  ] rootA , }
-")).
-Eval vm_compute in ("<<<M1690>>>" ++ check (runes_of_ascii "
-root packet  asx 
-{
-
-    leftPad{ u128@calculatedFrom(
-    ""1""  ) 
-, 	 //x
-	}
-,
-
-lengthOf// packet A { u8 x, }
-      @calculatedFrom(
-""" ++ [128512]%N ++ runes_of_ascii """ )  `a\` ,
-i64 	 // `tick` ""quote"" 'q'
-Packet
-
-@lengthOf( calculatedFrom )
-
-, @calculatedFrom(  """ ++ [233]%N ++ runes_of_ascii "t" ++ [233]%N ++ runes_of_ascii """
-
-    ) stringy a1
-
-`doc`  // `tick` ""quote"" 'q'
-	,
-
-    @rightPad
-	(
-
-    // a // b
-  )  
-      // c
-    a1
-`a\`
-,
-    char	Header
-@lengthOf(
-
-x  ) `say ""hi""`
-
-    , 
-uint8x
-    Z9_ `tab	here`  , }
-
-    options
-    {  calculatedFrom	// packet A { u8 x, }
-
-	=
-0
-}
-packet metadata  {@leftPad (
-
-'\x00')
-
-f32
-
-    pack 
-//	t
-
-  //
-,
-
-@tag(65535)
-
-    u32
-    uint8x @lengthOf(
-
-    repeatCount 
-) ``	,	MetaDataX {
-	repeat 
-options1
-,match
-
-matchKey
-
-as
-
-    len { 
-""" ++ [128512]%N ++ runes_of_ascii """:  u8x
-	,1
-    :zchar, /// triple
-	[
-""a\\""	, ""x y""]
-:charz
-
-    0 :  x_y_z
-    //
-	,
-[// trailing space 
-    4294967296// `tick` ""quote"" 'q'
-	  ]
-
-    : 
-asx
-,	[	/// triple
-    ""a\""b""
-	,
-
-    ""\n"" , ""\" ++ [233]%N ++ runes_of_ascii """
-,
-    10 
-]
-
-:  _x,
-    } 
-,uint8
-
-metadata 
-@lengthOf(
-float )
-
-    ,zchar[
-	255
-]i8i8
-	, }
-
-    , 
-} root	packet
-f32a{ }
-")).
-Eval vm_compute in ("<<<M1615>>>" ++ check (runes_of_ascii "packet MetaDataX {
-    metadata trueish `" ++ [233]%N ++ runes_of_ascii "`,// trailing space 
-    @calculatedFrom(""`tick`"")
-    uint8x @calculatedFrom(""" ++ [128512]%N ++ runes_of_ascii """) `{ , }`,
-    @calculatedFrom(""a\""b"")
-    // packet A { u8 x, }
-    match Packet as body {
-        3 : repeatCount,
-        ""x y"" : lengthOf,
-        // `tick` ""quote"" 'q'
-        4294967296 : packetx,
-        [
-            ""abc"", ""// no comment"", ""abc"",
-            ""\n"", ""1""
-        ] : u128,
-        [00, 65535, ""x y"", ""{,}""] : calculatedFrom,
-        7 : i8i8,
-    },
-    u8x,
-    match int as matchKey {
-        [1, ""CRC32""] : asx,
-    },
-    @lengthOf(a1)
-    string x `it's`,
-    repeat char matchKey,
-    // a // b
-    @leftPad()
-    @rightPad()
-    match metadata as Packet {
-        [65535] : Header,
-    },
-    @tag(255)
-    zchar[3] crc `u8 x,`,
+Eval vm_compute in ("<<<M386>>>" ++ check (runes_of_ascii "options {
+    StringPrefixLenType = u16;
+    ArrayPrefixLenType = u16;
 }
 
-MetaData rootA {
-    i8i8 Pad,
-    int8 packetx `{ , }`,
-    int8 stringy,
-    // `tick` ""quote"" 'q'
-    body _x,
-    body o,
-}")).
-Eval vm_compute in ("<<<M135>>>" ++ check (runes_of_ascii "
-packet crc
-    {@tag(	0)  @calculatedFrom(
-    ""{,}""	) @rightPad ( ' ')	repeat uint8 lengthOf // a // b
-,
-    char[	42 ] float ,
-    repeat a1 // packet A { u8 x, }
-{ match
-x_y_z as charz
-    { [
-00
-, 4294967296,
-//x
-// a // b
-""it's"",""" ++ [28040; 24687]%N ++ runes_of_ascii """ ] ://x
-zchar,	[
-    ""packet"" ,// c
-""x y"",
-""it's"" ,""abc"" ,
-""it's""
-    ] :string_ , 0 : Z9_
-}
-    // `tick` ""quote"" 'q'
-    , // `tick` ""quote"" 'q'
-} ,match u8x
-as//x
-pack {[ 0123456789
-, ""x y""
-] : // c
-trueish /// triple
-, }	,
-    @calculatedFrom( ""a\""b""
-    // c
-    ) repeat string_ `a\`,
-packetx@calculatedFrom(
-""`tick`"" ) , int64 chars `say ""hi""` , @calculatedFrom(
-""a	b"" )@leftPad (  '\x00'
-) @lengthOf(
-    repeatCount)u64
-    falsey@calculatedFrom( ""\" ++ [233]%N ++ runes_of_ascii """
-    )
-,
-repeat Header { repeat
-    metadata , char[] chars`" ++ [28040; 24687; 31867; 22411]%N ++ runes_of_ascii "` , zchar[ 10] x_y_z `a\` ,	},
-// trailing space 
-// c
-}
-")).
-Eval vm_compute in ("<<<M1355>>>" ++ check (runes_of_ascii "options	{StringPrefixLenType 
-= 
-u16
-
-;ArrayPrefixLenType = u32
-;FixedStringPadFromLeft
-
-= true; 
-FixedStringPadChar 
-='0'
-	;  }  packet
-    Cancel { }	packet
-
-Party
-{  }packet Logon
-{ }
-    packet	Ack { 
-}
-    packet Logout	{
-
-    repeat InSym87{
-
-    InClordid94
-{
-string clOrdID
-	,
-
-}  ,string
-
-Px ,	i16
-
-Qty,
-
-repeat
-	InCount71
-	{ repeat Cancel ,
-	uint16
-
-    Tail , char[ 2  ] x  ,
-repeat
-
-    string Ref,
-    }	,Cancel
-    ,},
-    }
-
-root
-	packet Order  {repeat
-
-    string
-
-    tag7
-
-    ,
-@leftPad
-
-    (
-
-' '
-	)
-    char[3
-] 
-Px
-,	u8
-
-    Qty ,  match Qty 
-as
-
-    Body
-    {
-[
-
-28 
-,62 ]
-    : Logon,148 : Ack , 88
-	:  Party ,
-
-184: Cancel ,
-    } , 
-u16
-
-    Note
-    @calculatedFrom(	""CRC32"") 
-,
-	}")).
-Eval vm_compute in ("<<<M117>>>" ++ check (runes_of_ascii "// a // b
-packet	u128  {
-    repeat chars	{i64 u8x
-`
-`// a // b
-, // c
-_x
-@lengthOf(  falsey
-    )
-,
-    Logon
-`" ++ [28040; 24687; 31867; 22411]%N ++ runes_of_ascii "` ,repeat char[]
-trueish `tab	here` ,}
-    , } root packet T { match Packet
-as
-trueish {
-""packet"" : charz
-    ,
-    [4294967296 , ""1"" ] : A , 7 : x
-    // " ++ [27880; 37322]%N ++ runes_of_ascii "
-    , [
-    // a // b
-    7 ,""a	b""
-    ]
-:	u128 255 :
-As
-    3:
-Packet,} ,
-//	t
-// trailing space 
-pack
-`a\` , @calculatedFrom( """ ++ [233]%N ++ runes_of_ascii "t" ++ [233]%N ++ runes_of_ascii """ //	t
-)
-    rootA matchKey  ,
-char[ 65535]/// triple
-leftPad @lengthOf( roots
-    //
-    ) , repeat MetaDataX { u64
-    a1 @calculatedFrom(""x y"" ) `doc`  ,//	t
-uint8 falsey
-,
-match BodyLength as A
-{  [ ""\" ++ [233]%N ++ runes_of_ascii """,255 ,"""" ,
-    ""it's"" ] :	Foo ,
-3 : u128}	, } ,	}
-")).
-Eval vm_compute in ("<<<M366>>>" ++ check (runes_of_ascii "packet
-// @lengthOf(
-//	t
-f32a { char[] Header`" ++ [233]%N ++ runes_of_ascii "` ,  @tag( 00
-) zchar[ 255  ] int
-    , @lengthOf(	trueish)
-x @calculatedFrom( """ ++ [128512]%N ++ runes_of_ascii """
-    )`say ""hi""` , @leftPad
-    (	'\x00'
-) @lengthOf( //	t
-u128 )//	t
-repeat BodyLength ,
-falsey @lengthOf( uint8x ), //
-@lengthOf( rootA) repeat uint8 T  `a\` , repeat  string
-lengthOf
-`it's` , @leftPad(
-    '\x00' )
-zchar[ 42
-// packet A { u8 x, }
-// a // b
-] u`say ""hi""` ,// a // b
-repeat packetx
-// a // b
-// packet A { u8 x, }
-{
-Pad  f32a
-,// trailing space 
-i8i8 msg_type `say ""hi""` , i64_ repeatCount , char[]chars , } ,}MetaData _x
-{  x matchKey `" ++ [28040; 24687; 31867; 22411]%N ++ runes_of_ascii "`, }")).
-Eval vm_compute in ("<<<M1570>>>" ++ check (runes_of_ascii "
-root 
-packet
-Logon
-    {
-
-@calculatedFrom(
-
-"""" ) @lengthOf(	int
-
-    ) @tag(  3 )
-match
-_x 
-as	// a // b
-    i64_
-
-    {
-10 :
-    asx
-
-    // `tick` ""quote"" 'q'
-	  /// triple
-  """ ++ [128512]%N ++ runes_of_ascii """
-:
-
-crc	,
-	[0
-	,
-007
-
-]  :float
-	,  // trailing space 
-		} 
-,
-
-repeat 	 //	t
-  	uint16
-
-    leftPad
-
-,
-    } 
-
-    // " ++ [27880; 37322]%N ++ runes_of_ascii "
-  packet
-
-charz{  }  MetaData
-	int
-
-{  
-  //
-// trailing space 
-      zchar[
-    4294967296
-
-]matchKey
-	, asx rootA
-    `doc`
-
-,Foo
-	string_
-	`// not a comment` , 
-char[] u8x
-,  // `tick` ""quote"" 'q'
-    roots
-    float, }")).
-Eval vm_compute in ("<<<M1664>>>" ++ check (runes_of_ascii "packet tag {
-    string matchKey `line1
-        line2`,
-    @tag(0)
-    // c
-    @calculatedFrom(""1"")
-    @calculatedFrom(""a\""b"")
-    float64 matchKey,
-}
-
-options {
-    crc = true
-    msg_type = true;
-}
-
-packet o {
-    match roots as calculatedFrom {
-        ""// no comment"" : msg_type,
-        ""{,}"" : u128,
-        [65535, 0123456789] : body,
-        // " ++ [128512]%N ++ runes_of_ascii " emoji
-    },
-    @rightPad(' ')
-    repeat string_ i64_,
-    @lengthOf(lengthOf)
-    @tag(255)
-    @tag(00)
-    char[] stringy,
-}")).
-Eval vm_compute in ("<<<M335>>>" ++ check (runes_of_ascii "//	t
-packet u8x  {
-u8x { body
-@calculatedFrom(	""`tick`"") `say ""hi""`
-,match a1	as
-    asx // c
-{
-    //	t
-    0
-    :
-// " ++ [27880; 37322]%N ++ runes_of_ascii "
-// @lengthOf(
-asx }
-    ,}
-, @rightPad ( )
-    match Logon as	x { [
-    00 , ""// no comment"" , ""a\\"",0123456789
-    // trailing space 
-    ,
-    4294967296 ] : crc , 00:options1 , // " ++ [27880; 37322]%N ++ runes_of_ascii "
-42
-    :i8i8,0 : o 0123456789
-: body , } ,@tag(
-7 )float
-    @lengthOf(
-stringy) `" ++ [233]%N ++ runes_of_ascii "`,
-u
-    // c
-    @lengthOf( msg_type )
-,
-    }")).
-Eval vm_compute in ("<<<M1236>>>" ++ check (runes_of_ascii "// top
-options // c0a
-  // c0b
-{ f32a
-    // c2
-= // c3
-0 } // c5
-packet trueish // c7a
-  // c7b
-{ // c8
-}
-    // c9
-MetaData _x // c11
-{ char[ // c13a
-  // c13b
-0123456789 // c14
-] // c15a
-  // c15b
-zchar
-    // c16
-, // c17a
-  // c17b
-string // c18
-crc ,
-    // c20
-char[
-    // c21
-1 ] // c23a
-  // c23b
-options1
-    // c24
-, uint8 // c26a
-  // c26b
-repeatCount
-    // c27
-, // c28
-} // c29
-")).
-Eval vm_compute in ("<<<M236>>>" ++ check (runes_of_ascii "packet metadata{ //	t
-float64	body
-    @lengthOf( calculatedFrom ) , // a // b
-@tag(42
-    ) rootA ,
-    x_y_z u8x`// not a comment`
-    ,  @lengthOf(Pad)  match // " ++ [27880; 37322]%N ++ runes_of_ascii "
-packetx  as leftPad
-    {
-    //
-    65535 : tag ,
-""" ++ [128512]%N ++ runes_of_ascii """ :_x} , x_y_z  metadata , @tag(7 )int64 zchar @lengthOf(
-repeatCount ) `" ++ [233]%N ++ runes_of_ascii "`,@tag( 0123456789 ) repeat float chars ,	f32  MetaDataX
-,}")).
-Eval vm_compute in ("<<<M12>>>" ++ check (runes_of_ascii "options {falsey =int64; u8x = uint32	uint8x =// " ++ [128512]%N ++ runes_of_ascii " emoji
-zchar[ 1
-]
-// @lengthOf(
-/// triple
-; leftPad =
-    ""a	b"";
-    calculatedFrom
-=
-    false ;	}
-MetaData Packet
-{  zchar[
-7]  As ,} root packet	pack {
-@leftPad ( )	@tag(// trailing space 
-7 ) zchar[ 3 ] u	@lengthOf(
-// @lengthOf(
-// trailing space 
-x ),
-}
-")).
-Eval vm_compute in ("<<<M287>>>" ++ check (runes_of_ascii "root // trailing space 
-packet int {
-    f32a @calculatedFrom(""packet"" )
-    `
-`
-    , } options
-{
-    rootA
-    // @lengthOf(
-    =
-""\" ++ [233]%N ++ runes_of_ascii """; }
-    packet
-i8i8 {
-    // trailing space 
-    uint8
-    uint8x
-    @lengthOf( string_ ) //	t
-, i32 tag //	t
-@lengthOf(
-Logon )  , }")).
-Eval vm_compute in ("<<<M1453>>>" ++ check (runes_of_ascii "  packet 
-P1
-	{ u8 a
-,	}packet P2{
-	P1	, }
-
-    packet
-
-    P3{
-
-    P2  ,
-	P1
-	, }	packet P4  {
-	repeat
-P3
-	, P2, }  root
-packet  P5
-
-{ P4
-	,	P3
-, P1, u8
-
-    K,
-match K
-	as
-	Body{
-	4 :
-P4,
-3
-: P3  ,
-2 
-:P2  ,1
-:
-
-P1  ,
-	} 
-,}
-
-")).
-Eval vm_compute in ("<<<M82>>>" ++ check (runes_of_ascii "packet metadata
-{int32 calculatedFrom , } options {} options { u128 = '\x00'	;
-    string_ =	""abc""
-    ; }root
-packet i8i8
-    {  @rightPad
-( '\x00' ) repeat	metadata { string_,
-    tag@lengthOf( falsey ) ,
-} ,//x
-}")).
-Eval vm_compute in ("<<<M1323>>>" ++ check (runes_of_ascii "root packet Frame {
-    u8 K,
-    Logon first,
-    match K as Body {
+packet SampleBinary {
+    uint16 MsgType `" ++ [28040; 24687; 31867; 22411]%N ++ runes_of_ascii "`,
+    u16 BodyLenght @lengthOf(Body) `" ++ [28040; 24687; 20307; 38271; 24230]%N ++ runes_of_ascii "`,
+    match MsgType as Body {
         1 : Logon,
         2 : Logout,
+        3 : Heartbeat,
+        4 : RiskControlRequest,
+        5 : RiskControlResponse,
+    },
+    @calculatedFrom(""CRC32"")
+    u32 Ckecksum `" ++ [26657; 39564; 21644]%N ++ runes_of_ascii "`,
+}
+
+packet Logon {
+    @leftPad('0')
+    char[10] UserName `" ++ [29992; 25143; 21517]%N ++ runes_of_ascii "`,
+    string Password `" ++ [23494; 30721]%N ++ runes_of_ascii "`,
+    uint64 ClientId `" ++ [23458; 25143; 31471]%N ++ runes_of_ascii "ID`,
+    u16 HeartbeatInterval `" ++ [24515; 36339; 38388; 38548]%N ++ runes_of_ascii "`,
+}
+
+packet Logout {
+    @rightPad('0')
+    char[10] UserName `" ++ [29992; 25143; 21517]%N ++ runes_of_ascii "`,
+    uint64 ClientId `" ++ [23458; 25143; 31471]%N ++ runes_of_ascii "ID`,
+}
+
+packet Heartbeat {
+}
+
+packet RiskControlRequest {
+    string UniqueOrderId `" ++ [21807; 19968; 35746; 21333; 21495]%N ++ runes_of_ascii "`,
+    char[16] ClOrdID `" ++ [23458; 25143; 35746; 21333; 21495]%N ++ runes_of_ascii "`,
+    char[3] MarketID `" ++ [24066; 22330]%N ++ runes_of_ascii "id`,
+    char[12] SecurityID `" ++ [35777; 21048; 20195; 30721]%N ++ runes_of_ascii "`,
+    char Side `" ++ [20080; 21334; 26041; 21521]%N ++ runes_of_ascii "`,
+    char OrderType `" ++ [35746; 21333; 31867; 22411]%N ++ runes_of_ascii "`,
+    u64 Price `" ++ [20215; 26684]%N ++ runes_of_ascii "`,
+    u32 Qty `" ++ [25968; 37327]%N ++ runes_of_ascii "`,
+    repeat string ExtraInfo `" ++ [38468; 21152; 20449; 24687]%N ++ runes_of_ascii "`,
+    repeat SubOrder {
+        char[16] ClOrdID `" ++ [23376; 35746; 21333; 21495]%N ++ runes_of_ascii "`,
+        u64 Price `" ++ [23376; 35746; 21333; 20215; 26684]%N ++ runes_of_ascii "`,
+        u32 Qty `" ++ [23376; 35746; 21333; 25968; 37327]%N ++ runes_of_ascii "`,
     },
 }
+
+packet RiskControlResponse {
+    string UniqueOrderId `" ++ [21807; 19968; 35746; 21333; 21495]%N ++ runes_of_ascii "`,
+    i32 Status `" ++ [29366; 24577]%N ++ runes_of_ascii "`,
+    string Msg `" ++ [32467; 26524; 20449; 24687]%N ++ runes_of_ascii "`,
+    repeat Detail,
+}
+
+packet Detail {
+    string RuleName `" ++ [35268; 21017; 21517; 31216]%N ++ runes_of_ascii "`,
+    u16 Code `" ++ [21407; 22240; 20195; 30721]%N ++ runes_of_ascii "`,
+}")).
+Eval vm_compute in ("<<<M1771>>>" ++ check (runes_of_ascii "
+packet
+MetaDataX{
+    metadata
+trueish`" ++ [233]%N ++ runes_of_ascii "` 
+    //x
+      //x
+,	// trailing space 
+  @calculatedFrom( ""`tick`"")
+	uint8x
+// c
+	@calculatedFrom(
+    """ ++ [128512]%N ++ runes_of_ascii """
+    )`{ , }` , 
+@calculatedFrom(
+    ""a\""b""
+)	// packet A { u8 x, }
+
+match
+	Packet  as
+	body {  3
+:
+    repeatCount , ""x y"" 
+    /// triple
+  :lengthOf // `tick` ""quote"" 'q'
+	  4294967296 : 
+packetx	, [  ""abc""
+    ,  ""// no comment""
+    ,
+    ""abc""
+	, 
+""\n"" 	 //	t
+    ,
+    ""1"" 
+]
+    :
+    u128 [
+
+00 
+,
+65535 
+,	""x y""
+    ,
+	""{,}""
+	]: calculatedFrom  ,	7
+	:i8i8
+	}
+    , u8x
+, match
+
+    int 
+as
+matchKey {[
+1	,
+""CRC32""
+    ]
+// trailing space 
+  : 	 // @lengthOf(
+
+  asx
+,	} ,
+	@lengthOf(  // " ++ [128512]%N ++ runes_of_ascii " emoji
+    	a1  )
+    string
+x`it's`,repeat  // @lengthOf(
+    char matchKey 
+, 
+	// a // b
+      @leftPad // trailing space 
+()
+    @rightPad
+( )
+	match	metadata
+    as Packet  {
+    [
+65535  ]
+	:
+
+Header  ,
+}
+
+,@tag(
+
+255 
+) 
+zchar[3]
+crc 
+`u8 x,` , 
+}
+
+MetaData
+rootA // trailing space 
+{ i8i8
+Pad,
+    int8  packetx  `{ , }`,
+	int8	stringy ,
+    // `tick` ""quote"" 'q'
+    	body _x , body
+
+o
+    , 
+}
+")).
+Eval vm_compute in ("<<<M1462>>>" ++ check (runes_of_ascii "root packet repeatCount {
+    @lengthOf(u8x)
+    @calculatedFrom(""1"")
+    @tag(007)
+    repeat zchar[42] Header `" ++ [28040; 24687; 31867; 22411]%N ++ runes_of_ascii "`,
+    match options1 as asx {
+        255 : roots,
+    },// a // b
+    Header @lengthOf(options1) ``,
+    Header @lengthOf(len) `{ , }`,
+    o matchKey `u8 x,`,
+}
+
+packet packetx {
+    zchar[255] crc,
+}
+
 packet Logon {
-    string user,
+    body {
+        float {
+            repeat Logon trueish,
+        },
+    },
+    @calculatedFrom(""`tick`"")
+    repeat char[0] f32a,
+    match body as float {
+        [65535, """ ++ [28040; 24687]%N ++ runes_of_ascii """] : calculatedFrom,
+    },
+    u32 float @calculatedFrom(""" ++ [233]%N ++ runes_of_ascii "t" ++ [233]%N ++ runes_of_ascii """),
+    string body @lengthOf(len) `
+        `,
+    u8x @calculatedFrom(""a\""b""),//	t
+    float64 options1 @calculatedFrom(""" ++ [128512]%N ++ runes_of_ascii """) `it's`,
+    //x
+    // trailing space 
+    match crc as chars {
+        3 : options1,
+        [10] : _x,
+        [""{,}""] : options1,
+        [""CRC32"", ""a\\"", ""a\\"", ""packet"", 7] : As,
+    },
+    i16 msg_type,
+}")).
+Eval vm_compute in ("<<<M1368>>>" ++ check (runes_of_ascii "options {
+    FixedStringPadFromLeft = true;
+    FixedStringPadChar = '0';
+}
+packet Leg {
+    repeat InSym93 {
+        zchar[3] Acct,
+        string Side2,
+        i32 Flags,
+        f32 Note,
+        i32 msgKind,
+    },
+    f64 Note,
+    uint16 Px,
+}
+packet Quote {
+    zchar[2] OrderId,
+}
+packet Ack {
+    repeat string lastPx,
+    zchar[4] price,
+    uint32 OrderId,
+    Quote,
+    int8 Acct,
+}
+packet Fill {
+    repeat Leg,
+    @rightPad('0') char[11] Note,
+    f64 Px,
+    @rightPad('\x00') char[5] Flags,
+    zchar[9] x,
+    string msgKind,
+}
+root packet Order {
+    Leg,
+    repeat Ack,
+    @rightPad('\x00') char[3] Side2,
+    repeat char[1] seqNo,
+    u16 clOrdID,
+    match clOrdID as Body {
+        198 : Leg,
+        23 : Quote,
+        13 : Ack,
+        159 : Fill,
+    },
+    u32 venue @calculatedFrom(""CRC32""),
+}
+")).
+Eval vm_compute in ("<<<M1813>>>" ++ check (runes_of_ascii "// top
+options {
+    // c1
+    StringPrefixLenType = u8;// c5a
+    // c5b
+    ArrayPrefixLenType = u8;// c9
+    FixedStringPadFromLeft = false;// c13
+    FixedStringPadChar = ' ';// c17a
+    // c17b
+}
+
+// c18
+packet Ack {
+    // c21
+    char[] tag7,
+}
+
+// c25
+packet Reject {
+    InSym61 {
+        // c30
+        repeat Ack,
+        zchar[4] f1,
+    },
+}// c41
+
+packet Logout {
+    // c44
+    char[4] clOrdID,// c49
+}
+
+// c50
+root packet Cancel {
+    @leftPad(' ')
+    char[10] price,
+    // c63
+    u8 x,
+    u32 venue @lengthOf(Body),// c72
+    match x as Body {
+        // c77
+        [92, 175] : Logout,
+        26 : Reject,
+        // c89a
+        // c89b
+        144 : Ack,
+    },// c95
+    u16 count @calculatedFrom(""CRC32""),
+}")).
+Eval vm_compute in ("<<<M288>>>" ++ check (runes_of_ascii "// packet A { u8 x, }
+MetaData
+    _x
+{ //
+char[] len
+    ,}options
+// @lengthOf(
+//
+{ repeatCount =""""
+    ; }// c
+root packet chars {
+    char[ 255
+]u8x,	repeat
+/// triple
+// c
+string repeatCount
+`" ++ [28040; 24687; 31867; 22411]%N ++ runes_of_ascii "` ,
+repeat zchar[ 10
+]
+string_ , @tag( // trailing space 
+255
+    ) i8i8{// packet A { u8 x, }
+options1
+calculatedFrom `u8 x,`
+,
+    i64
+len,
+    roots // c
+{ // @lengthOf(
+repeat
+    // a // b
+    i64_ zchar //
+,
+    } ,
+    }
+, match chars as Packet	{
+""a\""b"": Pad
+,[ ""{,}""
+    ]
+:
+calculatedFrom // a // b
+,
+""" ++ [233]%N ++ runes_of_ascii "t" ++ [233]%N ++ runes_of_ascii """
+//x
+// `tick` ""quote"" 'q'
+: uint8x ,[ // packet A { u8 x, }
+""`tick`"" ,0
+    , 42
+    ] : _x[ 0123456789	, ""\" ++ [233]%N ++ runes_of_ascii """
+    ] :
+i8i8,	} ,	}
+")).
+Eval vm_compute in ("<<<M1422>>>" ++ check (runes_of_ascii "root packet asx {
+    tag body `u8 x,`,
+}
+
+packet string_ {
+    @lengthOf(len)
+    repeat zchar[42] u8x,
+    zchar[0] asx,
+}
+
+packet int {
+    repeat crc {
+        zchar float,
+        match i8i8 as rootA {
+            255 : lengthOf,
+            1 : lengthOf,
+            3 : roots,
+            3 : uint8x,
+            0 : As,
+            ""`tick`"" : repeatCount,
+        },
+        repeat char[] falsey,
+        u64 lengthOf,
+    },
+    @lengthOf(crc)
+    lengthOf i64_,
+    leftPad `crlf
+    line`,
+}
+
+root packet zchar {
+    f32 _x @calculatedFrom(""a\\""),
+}
+
+MetaData chars {
+    //
+}")).
+Eval vm_compute in ("<<<M65>>>" ++ check (runes_of_ascii "packet leftPad {
+match A as x {""`tick`""
+    : MetaDataX //
+, [""it's""
+,""\n"" ,
+""" ++ [28040; 24687]%N ++ runes_of_ascii """ ] :
+string_ , 0123456789 : o ,
+[
+""{,}"", ""x y"" ]
+:uint8x	} , char[3	] msg_type// " ++ [128512]%N ++ runes_of_ascii " emoji
+@lengthOf( u
+//	t
+// " ++ [27880; 37322]%N ++ runes_of_ascii "
+)`two words` ,
+    // c
+    repeat
+    int
+// packet A { u8 x, }
+// @lengthOf(
+Foo ,
+@rightPad
+(
+    )
+@rightPad
+( ' ' )
+    Foo charz`{ , }`, }
+MetaData A {
+zchar[
+0 ]A `{ , }`
+    , float32 a1
+    //
+    ,
+    char[]  pack , /// triple
+string body `" ++ [233]%N ++ runes_of_ascii "` , string chars `doc` , int _x`two words`
+,} options { Z9_ =
+    uint16 ; }")).
+Eval vm_compute in ("<<<M1237>>>" ++ check (runes_of_ascii "// top
+options // c0
+{ // c1
+zchar // c2
+= // c3
+true // c4
+; // c5
+Pad // c6
+= // c7
+char[ // c8
+00 // c9
+] // c10
+a1 // c11
+= // c12
+uint32 // c13
+BodyLength // c14
+= // c15
+true // c16
+; // c17
+} // c18
+root // c19
+packet // c20
+T // c21
+{ // c22
+@lengthOf( // c23
+repeatCount // c24
+) // c25
+@tag( // c26
+1 // c27
+) // c28
+@calculatedFrom( // c29
+""a	b"" // c30
+) // c31
+string // c32
+stringy // c33
+@calculatedFrom( // c34
+""\n"" // c35
+) // c36
+`u8 x,` // c37
+, // c38
+} // c39
+")).
+Eval vm_compute in ("<<<M1113>>>" ++ check (runes_of_ascii "// top
+packet // c0
+float // c1
+{ // c2
+@rightPad // c3
+( // c4
+) // c5
+rootA // c6
+@lengthOf( // c7
+trueish // c8
+) // c9
+, // c10
+stringy // c11
+@lengthOf( // c12
+matchKey // c13
+) // c14
+, // c15
+char[ // c16
+4294967296 // c17
+] // c18
+pack // c19
+@lengthOf( // c20
+uint8x // c21
+) // c22
+, // c23
+} // c24
+root // c25
+packet // c26
+trueish // c27
+{ // c28
+repeat // c29
+uint64 // c30
+u128 // c31
+`line1
+line2` // c32
+, // c33
+} // c34
+")).
+Eval vm_compute in ("<<<M1332>>>" ++ check (runes_of_ascii "options {
+    LittleEndian = false;
+    StringPrefixLenType = u8;
+    ArrayPrefixLenType = u64;
+    FixedStringPadFromLeft = false;
+    FixedStringPadChar = ' ';
+}
+packet Reject {
+    repeat char[4] seqNo,
+    string Px,
+}
+root packet Trade {
+    @rightPad('0') char[2] msgKind,
+    repeat f64 price,
+    InAcct79 {
+        repeat Reject,
+        zchar[7] OrderId,
+    },
+    Reject,
+}
+")).
+Eval vm_compute in ("<<<M248>>>" ++ check (runes_of_ascii "packet a1
+    { char[]	charz @calculatedFrom(
+    //x
+    """ ++ [28040; 24687]%N ++ runes_of_ascii """)
+,
+    uint8x`crlf
+line`
+    , uint64 T  `line1
+line2` ,
+    @leftPad (
+'0')
+// a // b
+/// triple
+@calculatedFrom( ""abc"" )
+@tag( 3 ) match
+int // a // b
+as len
+{ 0	:  chars, [ 10, ""a\\"",
+1 ,0 ,10 , 0
+    ] : body, 007 :
+    // a // b
+    rootA // a // b
+, } , falsey options1 , }
+")).
+Eval vm_compute in ("<<<M1385>>>" ++ check (runes_of_ascii "options {
+    LittleEndian = true;
+}
+packet Logon {
+    u8 x,
 }
 packet Logout {
     u16 reason,
 }
+root packet Frame {
+    u64 Kind,
+    u64 Kind2,
+    match Kind as Body {
+        1 : Logon,
+        [2, 3, 4] : Logout,
+        100 : Logon,
+    },
+    match Kind2 as Trailer {
+        0 : Logout,
+    },
+}
 ")).
-Eval vm_compute in ("<<<M1609>>>" ++ check (runes_of_ascii "packet A
+Eval vm_compute in ("<<<M1613>>>" ++ check (runes_of_ascii "packet FooBar // c1
+		{
+	u8
 
-    {
-match
+    a
+, 
+    // c5
+    }	// c6
+  packet
+    foo_bar 	 // c8a
+  	// c8b
+  {
 
-    k
-as
+// c9
+u16
+        // c10
 
-n
+b
 
-    {
+,  // c12a
+  // c12b
+    }  // c13
 
-    [1
-	,
-	22
+root// c14
+      packet R {  // c17a
+	  // c17b
+
+FooBar ,  
+  // c19
+
+	foo_bar 	 // c20
+	,  }")).
+Eval vm_compute in ("<<<M234>>>" ++ check (runes_of_ascii "//	t
+options{
+    chars=true As= char[]
+// trailing space 
+// " ++ [128512]%N ++ runes_of_ascii " emoji
+; /// triple
+x_y_z	= 7; // " ++ [27880; 37322]%N ++ runes_of_ascii "
+i8i8 = true packetx = /// triple
+' ' } root packet	x_y_z {repeat
+    char[
+    42
+    //x
+    ] //	t
+Pad,
+    }
+// packet A { u8 x, }
+")).
+Eval vm_compute in ("<<<M1303>>>" ++ check (runes_of_ascii "// top
+packet
+    // c0
+order_item // c1
+{ u8 // c3
+a // c4a
+  // c4b
+, // c5
+} root // c7
+packet
+    // c8
+new_order
+    // c9
+{ // c10
+order_item
+    // c11
 ,
-    ""c c""
-    , 4  , 
-5
-,
-
-    ""f""
+    // c12
+u8 // c13a
+  // c13b
+x ,
+    // c15
+} ")).
+Eval vm_compute in ("<<<M169>>>" ++ check (runes_of_ascii "root packet
+    // `tick` ""quote"" 'q'
+    string_ { repeat
+char[00]  rootA
     ,
-7
-
-    ,  8
-
-,
-
-""i""
-,10  ]  :
-
-B
-, 2	:
-C } ,
-	}")).
-Eval vm_compute in ("<<<M501>>>" ++ check (runes_of_ascii "packet uint8x
-{ match pack
-    as msg_type	{
-    0123456789 :	float
+// " ++ [128512]%N ++ runes_of_ascii " emoji
+// " ++ [27880; 37322]%N ++ runes_of_ascii "
 }
-,
-} packet //	t
-a1
-    { } options {packetx
-    = '\x00' '\x00'	; u128= ""a	b""  ; }
+    MetaData u {i32 options1,
+}MetaData
+rootA
+{
+u16  chars	,
+/// triple
+//x
+}
 ")).
-Eval vm_compute in ("<<<M543>>>" ++ check (runes_of_ascii "packet uint8x
-{ mat'1'ch pack
+Eval vm_compute in ("<<<M1256>>>" ++ check (runes_of_ascii "// top
+root // c0
+packet P // c2
+{ // c3
+hdr
+    // c4
+{
+    // c5
+u8 // c6
+a // c7a
+  // c7b
+,
+    // c8
+} , // c10
+u8 // c11
+x // c12a
+  // c12b
+, }
+    // c14
+")).
+Eval vm_compute in ("<<<M411>>>" ++ check (runes_of_ascii "packet uint8x
+{ match pack pack
     as msg_type	{
     0123456789 :	float
 }
@@ -901,29 +814,25 @@ a1
     { } options {packetx
     = '\x00'	; u128= ""a	b""  ; }
 ")).
-Eval vm_compute in ("<<<M536>>>" ++ check (runes_of_ascii "packet uint8x
+Eval vm_compute in ("<<<M451>>>" ++ check (runes_of_ascii "packet uint8x
 { match pack
     as msg_type	{
     0123456789 :	float
 }
-,
+, ,
 } packet //	t
 a1
     { } options {packetx
-    = '\x00'	/; u128= ""a	b""  ; }
-")).
-Eval vm_compute in ("<<<M477>>>" ++ check (runes_of_ascii "packet uint8x
-{ match pack
-    as msg_type	{
-    0123456789 :	float
-}
-,
-} packet //	t
-a1
-    { options } {packetx
     = '\x00'	; u128= ""a	b""  ; }
 ")).
-Eval vm_compute in ("<<<M530>>>" ++ check (runes_of_ascii "packet uint8x
+Eval vm_compute in ("<<<M275>>>" ++ check (runes_of_ascii "MetaData
+stringy { zchar[10 ] crc,  }
+    packet u128
+{ repeat uint16  BodyLength `// not a comment`, @lengthOf( falsey ) _x ,
+char[ 42 ]  i8i8	, }
+
+")).
+Eval vm_compute in ("<<<M532>>>" ++ check (runes_of_ascii "packet uint8x
 { match pack
     as msg_type	{
     0123456789 :	float
@@ -932,230 +841,255 @@ Eval vm_compute in ("<<<M530>>>" ++ check (runes_of_ascii "packet uint8x
 } packet //	t
 a1
     { } options {packetx
-    = '\x00'	; u128= ""a	b""  ; 
+    = '\x00'	; u128= ""a	b""  ; )
 ")).
-Eval vm_compute in ("<<<M661>>>" ++ check (runes_of_ascii "// @lengthOf(
-packet i8i8 { u128 o o , }
+Eval vm_compute in ("<<<M1819>>>" ++ check (runes_of_ascii "
+
+  MetaData
+repeatCount 	 // c
+
+{char[ 
+42	// " ++ [27880; 37322]%N ++ runes_of_ascii "
+
+	] 
+	    // " ++ [128512]%N ++ runes_of_ascii " emoji
+	MetaDataX , 
+    // @lengthOf(
+    	zchar[ 
+// " ++ [27880; 37322]%N ++ runes_of_ascii "
+//x
+  0 ]
+    asx ,}
+
+")).
+Eval vm_compute in ("<<<M705>>>" ++ check (runes_of_ascii "// @lengthOf(
+packet i8i8 { u128 o , }
 options { MetaDataX = true;
     BodyLength =""packet"" x_y_z= 007
 crc //x
-= ""abc"" ;
+= = ""abc"" ;
     msg_type =
 i16 }")).
-Eval vm_compute in ("<<<M662>>>" ++ check (runes_of_ascii "// @lengthOf(
+Eval vm_compute in ("<<<M721>>>" ++ check (runes_of_ascii "// @lengthOf(
 packet i8i8 { u128 o , }
-{ options MetaDataX = true;
+options { MetaDataX = true;
     BodyLength =""packet"" x_y_z= 007
 crc //x
-= ""abc"" ;
-    msg_type =
+= ""abc"" msg_type
+    ; =
 i16 }")).
-Eval vm_compute in ("<<<M1260>>>" ++ check (runes_of_ascii "
-
-  packet
-
-B
-    {
-
-u8
-	a
-
-,
-    }root
-packet
-P{ u8 K  , u8
-
-L @lengthOf(
-	Body )
-,  match
-
-K
-    as Body
+Eval vm_compute in ("<<<M1263>>>" ++ check (runes_of_ascii "
+packet B {u8 
+a ,
+}  root	packet P
 {
 
-    1  :  B
-	,  },
-    } ")).
-Eval vm_compute in ("<<<M37>>>" ++ check (runes_of_ascii "//
-root /// triple
-packet // trailing space 
-pack {
-@leftPad(
-    ' ' )
-    repeat trueish zchar ,	} root
-    packet // " ++ [27880; 37322]%N ++ runes_of_ascii "
-Header { }")).
-Eval vm_compute in ("<<<M1945>>>" ++ check (runes_of_ascii "MetaData leftPad {
-    chars MetaDataX,
-}
+    u8
+K, 
+u64	L
+@lengthOf(
 
-packet repeatCount {
-    char[255] uint8x `" ++ [233]%N ++ runes_of_ascii "`,
-}
+Body
+)	, match
+    K
+as
 
-MetaData pack {
-    As Foo,
-}
-// c")).
-Eval vm_compute in ("<<<M1189>>>" ++ check (runes_of_ascii "MetaData leftPad { chars MetaDataX , } packet repeatCount { char[ 255 ] uint8x `" ++ [233]%N ++ runes_of_ascii "` , } MetaData pack { As Foo , } // c
+    Body
+{ 1
+
+    : 
+B
+
+,
+}	, }
+
 ")).
-Eval vm_compute in ("<<<M1170>>>" ++ check (runes_of_ascii "MetaData leftPad { chars MetaDataX , } packet repeatCount { char[ 255 ] uint8x
+Eval vm_compute in ("<<<M1743>>>" ++ check (runes_of_ascii "
+packet
+
+    A  {match
+
+    k
+    as
+
+    n
+    { [
+1	, 
+22, 
+""c c""
+    ,
+4,
+
+    5
+, ""f"" 
+,7
+,	8]	: B
+    2 :C  }
+    ,  }")).
+Eval vm_compute in ("<<<M343>>>" ++ check (runes_of_ascii "packet Header { repeat char[  0123456789 ]BodyLength`" ++ [28040; 24687; 31867; 22411]%N ++ runes_of_ascii "`/// triple
+, zchar[ 3
+    ] chars
+    ,// trailing space 
+A, } //")).
+Eval vm_compute in ("<<<M1144>>>" ++ check (runes_of_ascii "MetaData
 // c
-`" ++ [233]%N ++ runes_of_ascii "` , } MetaData pack { As Foo , }")).
-Eval vm_compute in ("<<<M907>>>" ++ check (runes_of_ascii "packet A {
+leftPad { chars MetaDataX , } packet repeatCount { char[ 255 ] uint8x `" ++ [233]%N ++ runes_of_ascii "` , } MetaData pack { As Foo , }")).
+Eval vm_compute in ("<<<M1176>>>" ++ check (runes_of_ascii "MetaData leftPad { chars MetaDataX , } packet repeatCount { char[ 255 ] uint8x `" ++ [233]%N ++ runes_of_ascii "` , }
+// c
+MetaData pack { As Foo , }")).
+Eval vm_compute in ("<<<M300>>>" ++ check (runes_of_ascii "packet
+Logon  { repeat u {zchar { zchar[ 007
+] a1
+`` ,  x_y_z@calculatedFrom(
+//
+// " ++ [128512]%N ++ runes_of_ascii " emoji
+""{,}""
+    ), }, } ,}
+")).
+Eval vm_compute in ("<<<M911>>>" ++ check (runes_of_ascii "packet A {
   match k as n {
-    [""a"", ""bb"", ""c c"", ""d"", ""e"", ""f"", ""g"", ""h"", ""i"", ""j"", ""k"", ""l""] : B
+    [""a"", 22, ""c c"", 4, ""e"", 66, ""g"", 8, ""i"", 10, ""k"", 12] : B
     2 : C
   },
 }")).
-Eval vm_compute in ("<<<M25>>>" ++ check (runes_of_ascii "packet stringy	{
-    } // packet A { u8 x, }
-packet
-    u128
-    { u16 len@lengthOf( u128)	,
-    //x
-    }
-")).
-Eval vm_compute in ("<<<M352>>>" ++ check (runes_of_ascii "packet _x {
-} // trailing space 
-options
-    { repeatCount
-    =42 //x
-;Pad = true;
-x_y_z =
-65535 ;}
-")).
-Eval vm_compute in ("<<<M620>>>" ++ check (runes_of_ascii "
+Eval vm_compute in ("<<<M913>>>" ++ check (runes_of_ascii "packet A {
+  match k as n {
+    [1, 22, ""c c"", 4, 5, ""f"", 7, 8, ""i"", 10, 11, ""l""] : B
+    2 : C
+  },
+}")).
+Eval vm_compute in ("<<<M875>>>" ++ check (runes_of_ascii "packet A {
+  match k as n {
+    [""a"", ""bb"", 007, ""d"", ""e"", 66, ""g"", ""h"", 9] : B,
+    2 : C
+  },
+}")).
+Eval vm_compute in ("<<<M389>>>" ++ check (runes_of_ascii "root packet SimpleMessage {
+    uint16 MsgType `" ++ [28040; 24687; 31867; 22411]%N ++ runes_of_ascii "`,
+    string JsonBody `Json" ++ [23383; 31526; 20018; 28040; 24687; 20307]%N ++ runes_of_ascii "`,
+}")).
+Eval vm_compute in ("<<<M629>>>" ++ check (runes_of_ascii "
 packet
     asx {match u128 as lengthOf
 {
 //	t
 // `tick` ""quote"" 'q'
 255 : x ,
-    } @lengthOf(	}")).
-Eval vm_compute in ("<<<M573>>>" ++ check (runes_of_ascii "
+    } ~ ,	}")).
+Eval vm_compute in ("<<<M599>>>" ++ check (runes_of_ascii "
 packet
-    asx {match u128 u128 as lengthOf
+    asx {match u128 as lengthOf
 {
 //	t
 // `tick` ""quote"" 'q'
-255 : x ,
+255 x : ,
     } ,	}")).
-Eval vm_compute in ("<<<M585>>>" ++ check (runes_of_ascii "
+Eval vm_compute in ("<<<M1307>>>" ++ check (runes_of_ascii "  packet
+orderItem 
+{
+	u8
+    a
+    , 
+}root
 packet
-    asx {match u128 as @lengthOf(
-{
-//	t
-// `tick` ""quote"" 'q'
-255 : x ,
-    } ,	}")).
-Eval vm_compute in ("<<<M555>>>" ++ check (runes_of_ascii "
-asx
-    packet {match u128 as lengthOf
-{
-//	t
-// `tick` ""quote"" 'q'
-255 : x ,
-    } ,	}")).
-Eval vm_compute in ("<<<M577>>>" ++ check (runes_of_ascii "
+newOrder{ orderItem	, 
+u8
+x
+	,
+}")).
+Eval vm_compute in ("<<<M1847>>>" ++ check (runes_of_ascii "MetaData repeatCount {
+    char[42] MetaDataX,
+    // @lengthOf(
+    zchar[0] asx,
+}")).
+Eval vm_compute in ("<<<M616>>>" ++ check (runes_of_ascii "
 packet
-    asx {match u128  lengthOf
+    asx {match u128 as lengthOf
 {
 //	t
 // `tick` ""quote"" 'q'
-255 : x ,
-    } ,	}")).
-Eval vm_compute in ("<<<M836>>>" ++ check (runes_of_ascii "packet A {
+255 : x ,")).
+Eval vm_compute in ("<<<M606>>>" ++ check (runes_of_ascii "
+packet
+    asx {match u128 as lengthOf
+{
+//	t
+// `tick` ""quote"" 'q'
+255 :")).
+Eval vm_compute in ("<<<M790>>>" ++ check (runes_of_ascii "packet A {
   match k as n {
-    [""a"", ""bb"", 007, ""d"", ""e"", 66] : B,
+    [""a"", ""bb"", ""c c""] : B
     2 : C
   },
 }")).
-Eval vm_compute in ("<<<M1750>>>" ++ check (runes_of_ascii "packet A {
-    match k as n {
-        [1, ""bb"", 007] : B,
-        2 : C,
-    },
-}")).
-Eval vm_compute in ("<<<M903>>>" ++ check (runes_of_ascii "packet A { Inner { match k as n { [1,22,007,4,5,66,7,8,9,10,11] : B, }, }, }")).
-Eval vm_compute in ("<<<M960>>>" ++ check (runes_of_ascii "packet A {
-    B b `tab
-	x`,
-    B `tab
-	x`,
-    repeat B bs `tab
-	x`,
-}")).
-Eval vm_compute in ("<<<M739>>>" ++ check (runes_of_ascii "zchar[ i64 @calculatedFrom( match false ) Header char[ @lengthOf( :")).
-Eval vm_compute in ("<<<M918>>>" ++ check (runes_of_ascii "packet A {
-    B b `a
-b`,
-    B `a
-b`,
-    repeat B bs `a
-b`,
-}")).
-Eval vm_compute in ("<<<M1574>>>" ++ check (runes_of_ascii "packet body {
-    i32 f32a `{ , }`,
+Eval vm_compute in ("<<<M1280>>>" ++ check (runes_of_ascii "root packet P {
+    u16 a,
+    u32 Sum @calculatedFrom(""CRC32""),
 }
-
-options {
-    // c
-}")).
-Eval vm_compute in ("<<<M1885>>>" ++ check (runes_of_ascii "
-packet
-
-A
-    {  u8
-    x , 
-    // c
-
-	u8
-y
-	,	}
-
 ")).
-Eval vm_compute in ("<<<M1217>>>" ++ check (runes_of_ascii "packet body { i32 f32a `{ , }` , } options { // c
-}")).
-Eval vm_compute in ("<<<M756>>>" ++ check (runes_of_ascii "zchar ( : f64 ) , repeat f32 u16 float64 , ; :")).
-Eval vm_compute in ("<<<M1850>>>" ++ check (runes_of_ascii "
-root
-	packet
-
-A
-	{
-    u8
-	x
-`x
-`
-,	}
+Eval vm_compute in ("<<<M1126>>>" ++ check (runes_of_ascii "// top
+MetaData
+    // c0
+u
+    // c1
+{
+    // c2
+}
+    // c3
 ")).
+Eval vm_compute in ("<<<M1598>>>" ++ check (runes_of_ascii "options {
+    a = ""x\
+        y"";
+    b = ""x\
+        y""
+}")).
+Eval vm_compute in ("<<<M1403>>>" ++ check (runes_of_ascii "options {
+    Logon = """ ++ [28040; 24687]%N ++ runes_of_ascii """;
+    BodyLength = false;
+}")).
+Eval vm_compute in ("<<<M332>>>" ++ check (runes_of_ascii "MetaData o
+    { } MetaData T  {
+    } options { }")).
+Eval vm_compute in ("<<<M1286>>>" ++ check (runes_of_ascii "
+
+  root
+    packet P{ 
+string
+	s
+
+    , }
+")).
+Eval vm_compute in ("<<<M337>>>" ++ check (runes_of_ascii "//	t
+options
+// c
+// " ++ [128512]%N ++ runes_of_ascii " emoji
+{
+    } // c")).
 Eval vm_compute in ("<<<M1068>>>" ++ check (runes_of_ascii "options { a = 1 // c b = 2; // d}")).
-Eval vm_compute in ("<<<M1284>>>" ++ check (runes_of_ascii "root packet P {
-    string s,
+Eval vm_compute in ("<<<M1413>>>" ++ check (runes_of_ascii "root
+	packet A{  u8
+	x	`
+`
+,
 }
+
 ")).
-Eval vm_compute in ("<<<M1018>>>" ++ check (runes_of_ascii "packet A {
- u8 x `d" ++ [8233]%N ++ runes_of_ascii "`, // c" ++ [8233]%N ++ runes_of_ascii "
+Eval vm_compute in ("<<<M1033>>>" ++ check (runes_of_ascii "packet A {
+ u8 x `d" ++ [11]%N ++ runes_of_ascii "`, // c" ++ [11]%N ++ runes_of_ascii "
 }")).
-Eval vm_compute in ("<<<M1718>>>" ++ check (runes_of_ascii "packet A {
-    char[3] x,
+Eval vm_compute in ("<<<M1852>>>" ++ check (runes_of_ascii "  packet 
+A {  }
+    // c" ++ [12]%N)).
+Eval vm_compute in ("<<<M1512>>>" ++ check (runes_of_ascii "root packet falsey {
 }")).
-Eval vm_compute in ("<<<M1488>>>" ++ check (runes_of_ascii "
-packet A
-{ }// c" ++ [8203]%N ++ runes_of_ascii "
+Eval vm_compute in ("<<<M1651>>>" ++ check (runes_of_ascii "  // only a comment
 ")).
-Eval vm_compute in ("<<<M1137>>>" ++ check (runes_of_ascii "MetaData u { }
-// c
-")).
-Eval vm_compute in ("<<<M982>>>" ++ check (runes_of_ascii "// c" ++ [12288]%N ++ runes_of_ascii "
-packet A {
+Eval vm_compute in ("<<<M996>>>" ++ check (runes_of_ascii "packet A {
+}
+// c" ++ [5760]%N)).
+Eval vm_compute in ("<<<M1666>>>" ++ check (runes_of_ascii "// trailing space ")).
+Eval vm_compute in ("<<<M1925>>>" ++ check (runes_of_ascii "packet falsey {
 }")).
-Eval vm_compute in ("<<<M1083>>>" ++ check (runes_of_ascii "packet A { // a
- }")).
-Eval vm_compute in ("<<<M1231>>>" ++ check (runes_of_ascii "packet x {
-// c
+Eval vm_compute in ("<<<M1447>>>" ++ check (runes_of_ascii "packet x {
 }")).
-Eval vm_compute in ("<<<M1477>>>" ++ check (runes_of_ascii "
-// " ++ [128512]%N ++ runes_of_ascii " emoji")).
-Eval vm_compute in ("<<<M1030>>>" ++ check (runes_of_ascii "// c" ++ [11]%N)).
+Eval vm_compute in ("<<<M1025>>>" ++ check (runes_of_ascii "// c" ++ [8287]%N)).
